@@ -3,12 +3,13 @@ import asyncio
 import sys
 
 import rig
+import translate
 import vloop
 from common import Driver, DriverFailure
 
 LEVEL = "proof"
 MANIFEST = dict(
-    text="Lean 4 invariants over a transition system of GeckoAsyncUdpProtocol.get for any number of concurrent callers, proved for every reachable state by  Session 4: an arrival-order monitor (no later caller is transmitted while an earlier caller has not completed)."
+    text="Lean 4 invariants over a transition system of GeckoAsyncUdpProtocol.get for any number of concurrent callers, proved for every reachable state by  Session 4: an arrival-order monitor (no later caller is transmitted while an earlier caller has not completed). The lock shape of get() is a theorem over its regenerated suspension skeleton (get_lock_shape: every transmission while the caller holds the lock, the lock taken once per call, for every trace)."
          "induction over action sequences (all arrival times, wake-up orders, reply loss/delay patterns, stalls): at most one caller inside an exchange and it is the lock "
          "holder (at_most_one_in_flight), datagrams per call <= retry count with the waiting handler built at the latest transmission (sends_bounded), callers served in "
          "call order (fifo: acquired ++ parked = called), a reply is returned only by the caller's own poll finding it (reply_was_delivered); and, without event-loop stalls, "
@@ -354,6 +355,11 @@ def search_gate(ctx):
 
 
 def run(ctx):
+    st = translate.run(["Skeletons"])
+    ctx.cov["translator"] = st
+    for k, v in st.items():
+        if v != "ok":
+            ctx.obligation_broken(f"translate:{k}", v)
     ctx.lean_obligations("GeckoModel.Properties.C06")
     rng = ctx.rng
     n_runs = 12 if ctx.quick else 150
